@@ -348,6 +348,13 @@ def inline_raw(raw, statics, depth=2, stack=(), max_blocks=None, thread=False):
                 post["el"] = [post["el"][0]] + [(_subst_call(x) if any(_is_call_copy(y, e) and "x" in y for y in _walk(x)) else x) for x in post["el"][1:]]
                 if isinstance(post.get("term"), dict) and any(_is_call_copy(y, e) for y in _walk(post["term"])):
                     post["term"] = _subst_call(post["term"])
+            # the call element that stays at the head of the post block is marked: its body has been spliced in front of it
+            if post["el"]:
+                head = copy.deepcopy(post["el"][0])
+                for y in _walk(head):
+                    if isinstance(y, dict) and y.get("k") == "Call" and y.get("fn") == callee["fn"] and y.get("l") == e.get("l"):
+                        y["spliced"] = callee["fn"]
+                post["el"] = [head] + list(post["el"][1:])
             blocks[post_id] = post
             # jump threading for helpers that answer with a constant: when the block behind the call does nothing but
             # branch on the call's result (`if (!helper (x)) return;`), a `return K` of the helper continues on the side
